@@ -3,7 +3,9 @@ package main
 import (
 	"bytes"
 	"fmt"
+	"io"
 	"math"
+	"math/rand"
 	"sync"
 	"sync/atomic"
 
@@ -12,6 +14,7 @@ import (
 	"github.com/biogo/biogo/io/seqio/fasta"
 	"github.com/biogo/biogo/io/seqio/fastq"
 	"github.com/biogo/biogo/seq"
+	"github.com/biogo/biogo/seq/alignment"
 	"github.com/biogo/biogo/seq/linear"
 
 	"verif/harness/internal/obs"
@@ -34,23 +37,7 @@ func c01ParallelWriters(r *obs.Run) {
 		err  error
 	}
 	write := func(recs []ioRec, qid bool) ([]byte, error) {
-		cw := &countingWriter{}
-		var wr interface {
-			Write(seq.Sequence) (int, error)
-		}
-		if isFastq {
-			fw := fastq.NewWriter(cw)
-			fw.QID = qid
-			wr = fw
-		} else {
-			wr = fasta.NewWriter(cw, 60)
-		}
-		for _, rec := range recs {
-			if _, err := wr.Write(rec.toSeq(al.a, alphabet.Sanger, true)); err != nil {
-				return nil, err
-			}
-		}
-		return cw.buf.Bytes(), nil
+		return c01WriteAll(recs, al.a, isFastq, qid)
 	}
 	jobs := make([]*job, ng)
 	for g := range jobs {
@@ -92,6 +79,14 @@ func c01ParallelWriters(r *obs.Run) {
 		}
 	}
 	r.Count("parallel_writer_sets", 1)
+	var recs [][]ioRec
+	var streams [][]byte
+	for _, j := range jobs {
+		recs, streams = append(recs, j.recs), append(streams, j.want)
+	}
+	if !c01ReadersSideBySide(r, al.a, isFastq, recs, streams) {
+		return
+	}
 	r.Note(fmt.Sprintf("parallel/%v/%d/%x", isFastq, ng, hashBytes(jobs[0].want)), true)
 }
 
@@ -101,7 +96,9 @@ func init() {
 		Level: "exploration",
 		Rule: "one record list per case (0..6 records; names over printable ASCII incl. leading '>','@','+','#'; trimmed descriptions with inner blanks/tabs; letters from the 7 built-in alphabets, mixed case; " +
 			"lengths 0,1,W-1,W,W+1,4095..8193,<=20000) written by the real FASTA writer (widths 1,2,59..61,len-1..len+1,4096,random) or FASTQ writer (QID on/off, 5 Phred-offset encodings, qualities over the printable range incl. strings starting with '@'/'+'; " +
-			"plain and quality sources and templates), read back through a chunked source, compared after the whole file is consumed, cross-checked by an independent parser of the emitted bytes and byte counts (also under write faults: the list is written again through a writer that accepts only the first B bytes and then short-writes with an error; the counts returned must add up to the bytes accepted); FASTA read-backs go into a linear.Seq or a linear.QSeq template; 1 record in 25 has a header line several read buffers long; plus %a/%q renderings. " +
+			"plain and quality sources and templates), read back through a chunked source, compared after the whole file is consumed, cross-checked by an independent parser of the emitted bytes and byte counts (also under write faults: the list is written again through a writer that accepts only the first B bytes and then short-writes with an error; the counts returned must add up to the bytes accepted); FASTA read-backs go into a linear.Seq or a linear.QSeq template; 1 record in 25 has a header line several read buffers long; plus %a/%q renderings (1 %a in 4 without a width). " +
+			"Half of the destinations also offer WriteByte/WriteString; 1 list in 8 is the rows of an alignment.Seq/QSeq; under write faults the bytes accepted must be a prefix of the fault-free output; one more pass lets the destination fail only while one record is written and uses the same writer on (later records must come out as when written alone, or with an error of their own); the sequence values are written in every pass and must still hold their name, description, letters and qualities afterwards; " +
+			"every 50th case: parallel writers, then their streams read back by parallel readers and by readers called in turn that clone one shared template. " +
 			"Non-trivial = >=1 record and (a sequence longer than the width or quality-carrying); distinct = (format,type,encoding,QID,width class,length classes,name/desc shape)+content hash",
 		Batches: func(t string) int {
 			if t == "thorough" {
@@ -113,7 +110,8 @@ func init() {
 		Case:        c01Case,
 		MinDistinct: func(t string) int { return 800 },
 		Floors: func(string) map[string]int64 {
-			return map[string]int64{"records_compared": 3000, "records_over_8192": 20, "fastq_quality_records": 500, "write_calls_counted": 3000, "format_verb_roundtrips": 300, "empty_lists": 5, "scanner_passes": 800}
+			return map[string]int64{"records_compared": 3000, "records_over_8192": 20, "fastq_quality_records": 500, "write_calls_counted": 3000, "format_verb_roundtrips": 300, "empty_lists": 5, "scanner_passes": 800,
+				"rich_destination_cases": 800, "alignment_rows_written": 300, "writes_after_a_failed_write": 1000, "parallel_reader_sets": 20, "round_robin_reader_sets_on_one_template": 20, "format_verb_a_without_width": 50}
 		},
 		Assumptions: []string{"records are written at offset 0 (the writers index from 0)", "the reference parsers assume the canonical layout the writers emit (one header line, LF terminators)"},
 	})
@@ -148,6 +146,10 @@ func c01Case(r *obs.Run, i int) {
 		enc = alphabet.Sanger // plain sources are written with the default Sanger encoding
 	}
 	plainTemplate := isFastq && !quality && rng.Intn(2) == 0
+	// half of the destinations also offer WriteByte and WriteString, as every real one does (*os.File, *bufio.Writer, ...)
+	rich := rng.Intn(2) == 0
+	// 1 list in 8 is the rows of an alignment (all of one length >= 1) instead of stand-alone linear sequences
+	asRows := nrec > 0 && rng.Intn(8) == 0
 	var recs []ioRec
 	anyLong, over8k := false, false
 	for k := 0; k < nrec; k++ {
@@ -156,6 +158,13 @@ func c01Case(r *obs.Run, i int) {
 			lw = 60 // lengths are drawn around an ordinary width; the huge one only parameterises the writer
 		}
 		n := genLen(rng, lw, rng.Intn(6) == 0)
+		if asRows {
+			if k > 0 {
+				n = len(recs[0].Letters)
+			} else if n == 0 {
+				n = 1
+			}
+		}
 		if !isFastq && !hugeWidth && rng.Intn(8) == 0 && n > 1 { // width relative to the length
 			width = []int{n - 1, n, n + 1}[rng.Intn(3)]
 		}
@@ -173,7 +182,8 @@ func c01Case(r *obs.Run, i int) {
 		}
 	}
 	w := map[string]interface{}{"format": map[bool]string{true: "fastq", false: "fasta"}[isFastq], "alphabet": al.name, "width": width,
-		"encoding": encNames[enc], "qid": qid, "quality_source": quality, "plain_template": plainTemplate}
+		"encoding": encNames[enc], "qid": qid, "quality_source": quality, "plain_template": plainTemplate,
+		"destination_has_writebyte_writestring": rich, "records_are_alignment_rows": asRows}
 	var rb []interface{}
 	for _, rec := range recs {
 		rb = append(rb, rec.brief())
@@ -192,22 +202,54 @@ func c01Case(r *obs.Run, i int) {
 		r.Count("empty_lists", 1)
 	}
 
+	// the sequence objects handed to the writers: built once, written in every pass below, looked at afterwards
+	srcs, err := c01Sources(recs, al.a, enc, quality, asRows)
+	if err != nil {
+		fail("harness", "cannot build the sources: "+err.Error())
+		return
+	}
+	var richCalls [2]int64
+	newWriter := func(dst io.Writer) (func(seq.Sequence) (int, error), func()) {
+		done := func() {}
+		if rich {
+			rw := &richWriter{w: dst}
+			dst = rw
+			done = func() { richCalls[0] += rw.byteCalls; richCalls[1] += rw.stringCalls }
+		}
+		if isFastq {
+			fw := fastq.NewWriter(dst)
+			fw.QID = qid
+			return fw.Write, done
+		}
+		return fasta.NewWriter(dst, width).Write, done
+	}
+	defer func() {
+		if rich {
+			r.Count("rich_destination_cases", 1)
+			r.Count("rich_destination_writebyte_calls", richCalls[0])
+			r.Count("rich_destination_writestring_calls", richCalls[1])
+		}
+	}()
+	unchanged := func(when string) bool {
+		fresh, _ := c01Sources(recs, al.a, enc, quality, asRows)
+		for k := range srcs {
+			if d := c01SourceDiff(srcs[k], fresh[k]); d != "" {
+				fail("source-changed", fmt.Sprintf("the sequence handed to Write as record %d is not what it was (%s): %s", k, when, d))
+				return false
+			}
+			r.Count("sources_compared_after_write", 1)
+		}
+		return true
+	}
+
 	// write
 	cw := &countingWriter{}
-	var wr interface {
-		Write(seq.Sequence) (int, error)
-	}
-	if isFastq {
-		fw := fastq.NewWriter(cw)
-		fw.QID = qid
-		wr = fw
-	} else {
-		wr = fasta.NewWriter(cw, width)
-	}
+	write, wdone := newWriter(cw)
 	total := 0
-	for k, rec := range recs {
+	recAt := []int{0} // record k occupies data[recAt[k]:recAt[k+1]]
+	for k := range recs {
 		before := cw.buf.Len()
-		n, err := wr.Write(rec.toSeq(al.a, enc, quality))
+		n, err := write(srcs[k])
 		if err != nil {
 			fail("write-error", fmt.Sprintf("Write of record %d returned %v", k, err))
 			return
@@ -217,11 +259,20 @@ func c01Case(r *obs.Run, i int) {
 			return
 		}
 		total += n
+		recAt = append(recAt, cw.buf.Len())
 		r.Count("write_calls_counted", 1)
+		if asRows {
+			r.Count("alignment_rows_written", 1)
+		}
 	}
+	wdone()
 	data := append([]byte(nil), cw.buf.Bytes()...)
 	if total != len(data) {
 		fail("byte-count", fmt.Sprintf("sum of n=%d but %d bytes emitted", total, len(data)))
+		return
+	}
+
+	if !unchanged("after the first pass") {
 		return
 	}
 
@@ -246,21 +297,12 @@ func c01Case(r *obs.Run, i int) {
 			}
 		}
 		for _, b := range budgets {
-			lw := &limitWriter{budget: b}
-			var fwr interface {
-				Write(seq.Sequence) (int, error)
-			}
-			if isFastq {
-				fw := fastq.NewWriter(lw)
-				fw.QID = qid
-				fwr = fw
-			} else {
-				fwr = fasta.NewWriter(lw, width)
-			}
+			lw := &limitWriter{budget: b, want: data}
+			fwrite, fdone := newWriter(lw)
 			sum, sawErr := 0, false
-			for k, rec := range recs {
+			for k := range recs {
 				before := lw.got
-				n, err := fwr.Write(rec.toSeq(al.a, enc, quality))
+				n, err := fwrite(srcs[k])
 				sum += n
 				if n != lw.got-before {
 					w["write_fault_after_bytes"] = b
@@ -272,6 +314,12 @@ func c01Case(r *obs.Run, i int) {
 					break
 				}
 			}
+			fdone()
+			if lw.differs {
+				w["write_fault_after_bytes"] = b
+				fail("write-fault-bytes", fmt.Sprintf("underlying writer fails after %d bytes: the bytes it accepted are not the first %d bytes of the fault-free output (first difference at byte %d)", b, b, lw.diffAt))
+				return
+			}
 			if !sawErr {
 				w["write_fault_after_bytes"] = b
 				fail("write-error-hidden", fmt.Sprintf("underlying writer failed after %d of %d bytes and no Write returned an error (counts sum to %d)", b, len(data), sum))
@@ -281,9 +329,54 @@ func c01Case(r *obs.Run, i int) {
 		}
 	}
 
+	// the destination fails only while one chosen record is written (it refuses the record, or accepts its first
+	// bytes and then short-writes with an error) and works again afterwards; the SAME writer is used on. The failing
+	// call must count what was accepted; every later call either reports an error of its own (and counts what it
+	// emitted) or emits exactly the bytes the record gave in the first pass: nothing of the failed record may linger
+	if nrec > 0 {
+		victim := rng.Intn(nrec)
+		cut := 0
+		if rng.Intn(3) != 0 {
+			cut = rng.Intn(recAt[victim+1] - recAt[victim])
+		}
+		w["failing_record"], w["failing_record_bytes_accepted"] = victim, cut
+		ww := &windowWriter{}
+		wwrite, wwdone := newWriter(ww)
+		for k := range recs {
+			alone := data[recAt[k]:recAt[k+1]]
+			ww.failing, ww.cut = k == victim, cut
+			before := ww.buf.Len()
+			n, err := wwrite(srcs[k])
+			ww.failing = false
+			emitted := ww.buf.Bytes()[before:]
+			switch {
+			case n != len(emitted):
+				fail("byte-count", fmt.Sprintf("destination fails only during record %d (after %d of its bytes): Write of record %d returned n=%d, err=%v, but %d bytes were accepted", victim, cut, k, n, err, len(emitted)))
+				return
+			case k == victim && err == nil:
+				fail("write-error-hidden", fmt.Sprintf("destination failed after %d bytes of record %d and Write returned no error", cut, k))
+				return
+			case k < victim && err != nil:
+				fail("write-error", fmt.Sprintf("Write of record %d returned %v", k, err))
+				return
+			case err != nil && !bytes.HasPrefix(alone, emitted), err == nil && !bytes.Equal(alone, emitted):
+				fail("writer-reuse-after-error", fmt.Sprintf("destination fails only during record %d (after %d of its bytes): Write of record %d (err=%v) emitted %d bytes that differ at byte %d from the %d bytes the same record gave when all writes succeeded", victim, cut, k, err, len(emitted), firstDiff(string(emitted), string(alone)), len(alone)))
+				return
+			}
+			if k > victim && err == nil {
+				r.Count("writes_after_a_failed_write", 1)
+			}
+		}
+		wwdone()
+		delete(w, "failing_record")
+		delete(w, "failing_record_bytes_accepted")
+		if !unchanged("after all write passes") {
+			return
+		}
+	}
+
 	// read back with the real reader; compare after everything is consumed
 	var got []seq.Sequence
-	var err error
 	if isFastq {
 		got, err, _ = readAllFastq(rng, data, al.a, enc, plainTemplate, len(recs)+3)
 	} else {
@@ -395,7 +488,20 @@ func c01Case(r *obs.Run, i int) {
 			if hugeWidth {
 				fw = 60 // fmt caps widths in a format string
 			}
-			text = fmt.Sprintf(fmt.Sprintf("%%%da\n", fw), src)
+			if rng.Intn(4) == 0 { // no width given: "%a" (no line breaks are asked for)
+				text = fmt.Sprintf("%a\n", src)
+				r.Count("format_verb_a_without_width", 1)
+			} else {
+				text = fmt.Sprintf(fmt.Sprintf("%%%da\n", fw), src)
+			}
+		}
+		fresh := rec.toSeq(al.a, enc, quality)
+		if qs, ok := fresh.(*linear.QSeq); ok {
+			qs.Threshold = 0
+		}
+		if d := c01SourceDiff(src, fresh); d != "" {
+			fail("source-changed", fmt.Sprintf("the sequence %q is not what it was after being rendered with a format verb: %s", rec.Name, d))
+			return
 		}
 		var back []seq.Sequence
 		if fq {
@@ -443,4 +549,225 @@ func lenClass(n, width int) int {
 		return 4
 	}
 	return 5
+}
+
+// c01Sources builds the sequence values for recs: stand-alone linear.Seq / linear.QSeq, or (asRows; the records
+// then have one length >= 1) the rows of one alignment.Seq / alignment.QSeq that stores them column by column.
+func c01Sources(recs []ioRec, al alphabet.Alphabet, enc alphabet.Encoding, quality, asRows bool) ([]seq.Sequence, error) {
+	out := make([]seq.Sequence, len(recs))
+	if !asRows {
+		for k, rec := range recs {
+			out[k] = rec.toSeq(al, enc, quality)
+		}
+		return out, nil
+	}
+	n, rows := len(recs[0].Letters), len(recs)
+	ids := make([]string, rows)
+	for k, rec := range recs {
+		ids[k] = rec.Name
+	}
+	if quality {
+		flat := make([]alphabet.QLetter, n*rows)
+		cols := make([][]alphabet.QLetter, n)
+		for c := range cols {
+			cols[c] = flat[c*rows : (c+1)*rows : (c+1)*rows]
+			for k, rec := range recs {
+				cols[c][k] = alphabet.QLetter{L: alphabet.Letter(rec.Letters[c]), Q: alphabet.Qphred(rec.Quals[c])}
+			}
+		}
+		a, err := alignment.NewQSeq("aln", ids, cols, al, enc, nil)
+		if err != nil {
+			return nil, err
+		}
+		for k, rec := range recs {
+			a.SubAnnotations[k].Desc = rec.Desc
+			out[k] = a.Row(k)
+		}
+		return out, nil
+	}
+	flat := make([]alphabet.Letter, n*rows)
+	cols := make([][]alphabet.Letter, n)
+	for c := range cols {
+		cols[c] = flat[c*rows : (c+1)*rows : (c+1)*rows]
+		for k, rec := range recs {
+			cols[c][k] = alphabet.Letter(rec.Letters[c])
+		}
+	}
+	a, err := alignment.NewSeq("aln", ids, cols, al, nil)
+	if err != nil {
+		return nil, err
+	}
+	for k, rec := range recs {
+		a.SubAnnotations[k].Desc = rec.Desc
+		out[k] = a.Row(k)
+	}
+	return out, nil
+}
+
+// c01SourceDiff says how got (a sequence that has been through Write or a format verb) differs from want (the same
+// record built afresh) in what the property speaks about: name, description, letters and quality scores. A list may
+// hold the same sequence value more than once, so writing a record must leave it the record it was. (Offset, encoding,
+// threshold and the like are not compared: a change there that no output shows is outside the statement.)
+func c01SourceDiff(got, want seq.Sequence) string {
+	switch {
+	case got.Name() != want.Name():
+		return fmt.Sprintf("name %q, was %q", got.Name(), want.Name())
+	case got.Description() != want.Description():
+		return fmt.Sprintf("description %q, was %q", got.Description(), want.Description())
+	case got.Len() != want.Len():
+		return fmt.Sprintf("length %d, was %d", got.Len(), want.Len())
+	}
+	for i := 0; i < want.Len(); i++ {
+		if g, w := got.At(i), want.At(i); g != w {
+			return fmt.Sprintf("position %d holds %q/%d, was %q/%d", i, g.L, g.Q, w.L, w.Q)
+		}
+	}
+	return ""
+}
+
+// c01WriteAll writes recs (quality-carrying, Sanger) with a writer of its own and returns the stream.
+func c01WriteAll(recs []ioRec, al alphabet.Alphabet, isFastq, qid bool) ([]byte, error) {
+	cw := &countingWriter{}
+	var wr interface {
+		Write(seq.Sequence) (int, error)
+	}
+	if isFastq {
+		fw := fastq.NewWriter(cw)
+		fw.QID = qid
+		wr = fw
+	} else {
+		wr = fasta.NewWriter(cw, 60)
+	}
+	for _, rec := range recs {
+		if _, err := wr.Write(rec.toSeq(al, alphabet.Sanger, true)); err != nil {
+			return nil, err
+		}
+	}
+	return cw.buf.Bytes(), nil
+}
+
+// c01ReadersSideBySide reads the streams of the parallel pass back with several readers alive at the same time:
+// (a) one reader per stream, each in a goroutine of its own with a template of its own, all started together;
+// (b) in one goroutine, one reader per stream (every third stream re-written in the other format, so FASTA and FASTQ
+// readers are mixed), all cloning ONE shared template, called in turn until each has reached io.EOF.
+// Readers must not influence one another: every reader yields the records of its own stream, and the shared template
+// is still empty at the end. Results are compared only after all readers have finished.
+func c01ReadersSideBySide(r *obs.Run, al alphabet.Alphabet, isFastq bool, recs [][]ioRec, streams [][]byte) bool {
+	rng := r.Rng
+	ng := len(streams)
+	fname := map[bool]string{true: "fastq", false: "fasta"}
+	compare := func(how string, g int, fq bool, got []seq.Sequence, err error) bool {
+		d := ""
+		switch {
+		case err != nil:
+			d = fmt.Sprintf("reader returned %v after %d records", err, len(got))
+		case len(got) != len(recs[g]):
+			d = fmt.Sprintf("%d records read, %d written", len(got), len(recs[g]))
+		default:
+			for k := range got {
+				if d = recEqual(recs[g][k], seqToRec(got[k], fq), fq); d != "" {
+					d = fmt.Sprintf("record %d: %s", k, d)
+					break
+				}
+			}
+		}
+		if d != "" {
+			r.Violate("readers-interfere", fmt.Sprintf("%d readers %s: the %s reader of stream %d does not yield its own records (%s)", ng, how, fname[fq], g, d),
+				map[string]interface{}{"readers": ng, "how": how, "reader": g, "reader_format": fname[fq], "what": d})
+			return false
+		}
+		r.Count("records_compared_from_side_by_side_readers", int64(len(got)))
+		return true
+	}
+
+	// (a) in parallel
+	type result struct {
+		got []seq.Sequence
+		err error
+	}
+	res := make([]result, ng)
+	seeds := make([]int64, ng)
+	for g := range seeds {
+		seeds[g] = rng.Int63()
+	}
+	var wg sync.WaitGroup
+	start := make(chan struct{})
+	for g := range streams {
+		wg.Add(1)
+		go func(g int) {
+			defer wg.Done()
+			lr := rand.New(rand.NewSource(seeds[g]))
+			src, tmpl := newSrc(lr, streams[g]), ioTemplate(lr, al, lr.Intn(2) == 0 || isFastq, alphabet.Sanger)
+			<-start
+			if isFastq {
+				res[g].got, res[g].err, _ = readAllFastqFrom(src, tmpl, len(recs[g])+3)
+			} else {
+				res[g].got, res[g].err, _ = readAllFastaFrom(src, tmpl, len(recs[g])+3)
+			}
+		}(g)
+	}
+	close(start)
+	wg.Wait()
+	for g := range res {
+		if !compare("in parallel goroutines", g, isFastq, res[g].got, res[g].err) {
+			return false
+		}
+	}
+	r.Count("parallel_reader_sets", 1)
+
+	// (b) in turn, one shared template
+	tmpl := ioTemplate(rng, al, true, alphabet.Sanger)
+	rds := make([]seqio.Reader, ng)
+	fq := make([]bool, ng)
+	for g := range rds {
+		fq[g] = isFastq
+		data := streams[g]
+		if g%3 == 2 {
+			fq[g] = !isFastq
+			b, err := c01WriteAll(recs[g], al, fq[g], g%2 == 0)
+			if err != nil {
+				r.Violate("write-error", "Write returned "+err.Error(), nil)
+				return false
+			}
+			data = append([]byte(nil), b...)
+		}
+		if fq[g] {
+			rds[g] = fastq.NewReader(newSrc(rng, data), tmpl)
+		} else {
+			rds[g] = fasta.NewReader(newSrc(rng, data), tmpl)
+		}
+	}
+	turn := make([]result, ng)
+	done := make([]bool, ng)
+	for left, round := ng, 0; left > 0; round++ {
+		for g, rd := range rds {
+			if done[g] {
+				continue
+			}
+			s, err := rd.Read()
+			switch {
+			case err == nil && round <= len(recs[g])+3:
+				turn[g].got = append(turn[g].got, s)
+				continue
+			case err == nil:
+				err = fmt.Errorf("no EOF after %d calls", round+1)
+			case err == io.EOF:
+				err = nil
+			}
+			turn[g].err, done[g] = err, true
+			left--
+		}
+	}
+	for g := range turn {
+		if !compare("called in turn and cloning one shared template", g, fq[g], turn[g].got, turn[g].err) {
+			return false
+		}
+	}
+	if tmpl.Name() != "" || tmpl.Description() != "" || tmpl.Len() != 0 {
+		r.Violate("readers-interfere", fmt.Sprintf("the template shared by %d readers is no longer empty after they have read their files: name %q, description %q, %d letters", ng, tmpl.Name(), tmpl.Description(), tmpl.Len()),
+			map[string]interface{}{"readers": ng, "template_name": tmpl.Name(), "template_description": tmpl.Description(), "template_length": tmpl.Len()})
+		return false
+	}
+	r.Count("round_robin_reader_sets_on_one_template", 1)
+	return true
 }
